@@ -855,4 +855,10 @@ def pupil_aberration(ctx):
     return res
 
 
+# META update: declined clause 'pupil-aberration values' re-worded
+META['declined'] = [
+    'pupil-aberration values as numbers (the formula, the fans it reads and the blocked-ray mask are decided: PUPIL-ABERRATION)' if _d.startswith('pupil-aberration values') else _d
+    for _d in META['declined']]
+
+
 RULES = [pupil_aberration, intensity_used, c03_trace_entry, c03_fields, arg_forward_rule, no_stale, records, arg_names_rule, list_space, record_fresh, operand_attr, parabasal, distortion, radii]
